@@ -1173,12 +1173,13 @@ static int munmap_probe(void)
 {
 	fflush(stdout); fflush(stderr);
 	pid_t pid = fork();
-	if (pid < 0) vf_fail("fork: %s", strerror(errno));
+	if (pid < 0) return 9;
 	if (pid == 0) {
 		int nul = open("/dev/null", O_WRONLY);
 		if (nul >= 0) { dup2(nul, 1); dup2(nul, 2); }
 		static const int sigs[] = { SIGSEGV, SIGBUS, SIGILL, SIGABRT, SIGFPE, SIGTRAP };
 		for (unsigned i = 0; i < sizeof(sigs) / sizeof(sigs[0]); i++) signal(sigs[i], SIG_DFL);
+		alarm(60);              /* a wedged child must not wedge the parent: SIGALRM = probe failed */
 		_exit(munmap_child());
 	}
 	int st = 0;
@@ -1187,9 +1188,8 @@ static int munmap_probe(void)
 	return WEXITSTATUS(st);
 }
 
-static void munmap_mode(void)
+static void munmap_mode(int rc)
 {
-	int rc = munmap_probe();
 	vf_count("munmap_probe", 1);
 	static trial_t dummy;      /* viol() wants a trial context */
 	T = &dummy; T->idx = 0; T->nops = 1;
@@ -1197,7 +1197,7 @@ static void munmap_mode(void)
 	snprintf(g_ring[0], sizeof(g_ring[0]), "p=mmap(4 pages); d=dispatch_data_create(p,12411,NULL,DISPATCH_DATA_DESTRUCTOR_MUNMAP); s=subrange(d,100,5000); c=concat(s,d); m=create_map(c) [bytes checked]; release m,d,c,s");
 	g_ringn = 1;
 	pthread_mutex_unlock(&g_ring_mtx);
-	if (rc < 0) {
+	if (rc < 0 && rc != -SIGALRM) {
 		viol("C13:destructor:munmap-kills-process", "a leaf created with DISPATCH_DATA_DESTRUCTOR_MUNMAP (documented in <dispatch/data.h>) kills the process with signal %d (%s) once its last reference is released, "
 				"instead of munmap(2)ing the buffer exactly once; run in a forked child, mode=munmap", -rc, strsignal(-rc));
 	} else if (rc == 7) {
@@ -1207,21 +1207,31 @@ static void munmap_mode(void)
 	} else if (rc != 0) {
 		vf_fail("munmap probe child failed with exit code %d", rc);
 	}
+	if (rc == -SIGALRM) {
+		vf_fail("munmap probe child did not finish within 60 s");
+	}
 	vf_emit("trial", "\"n\":1,\"sig\":\"munmap-probe\",\"nontrivial\":false,\"sample\":{\"mode\":\"munmap\",\"child_result\":%d}", rc);
 	T = NULL;
 }
 
 int main(int argc, char **argv)
 {
+	/* The MUNMAP probe forks. Do it while the process is still single-threaded (vf_init starts the watchdog thread;
+	 * a fork racing with a starting thread can inherit a held runtime lock and wedge the child). */
+	bool mode_munmap = false; const char *mm = "auto";
+	for (int i = 1; i < argc; i++) {
+		if (!strcmp(argv[i], "--mode=munmap")) mode_munmap = true;
+		if (!strncmp(argv[i], "--munmap=", 9)) mm = argv[i] + 9;
+	}
+	int probe = 1000;
+	if (mode_munmap || !strcmp(mm, "auto")) probe = munmap_probe();
 	vf_init(argc, argv, "h_data");
 	g_free_on_destroy = VF_ASAN || RUNNING_ON_VALGRIND;
-	if (!strcmp(vf_opts.mode, "munmap")) { munmap_mode(); return vf_finish(); }
-	const char *mm = vf_opt("munmap", "auto");
+	if (mode_munmap) { munmap_mode(probe); return vf_finish(); }
 	if (!strcmp(mm, "auto")) {
-		/* before this process touches any queue: does a MUNMAP leaf survive its release? (it does not on the unchanged tree;
-		 * mode=munmap reports that; here the kind is simply left out of the random trees) */
-		int rc = munmap_probe();
-		g_munmap_ok = rc == 0;
+		/* does a MUNMAP leaf survive its release? (it does not on the unchanged tree; mode=munmap reports that; here the
+		 * kind is simply left out of the random trees) */
+		g_munmap_ok = probe == 0;
 		vf_count(g_munmap_ok ? "munmap_leaves_enabled" : "munmap_leaves_disabled_probe_failed", 1);
 	} else g_munmap_ok = atoi(mm) != 0;
 	for (int i = 0; i < vf_opts.trials; i++) run_trial(vf_opts.first_trial + i);
